@@ -85,6 +85,7 @@ type PureFn struct {
 	Params []string
 	Ret    string // Int or Bool
 	Body   string
+	Opaque bool // used as an uninterpreted function; its definition is a pattern-guarded axiom
 }
 
 var labelRe = regexp.MustCompile(`^([A-Za-z_][A-Za-z0-9_.\-]*):\s+(.*)$`)
@@ -194,8 +195,8 @@ func (cs *ContractSet) parseFile(path, pkg string, prefix string, trusted bool) 
 				return bad("const NAME VALUE")
 			}
 			cs.Consts[fs[0]] = fs[1]
-		case "pure":
-			if cur != nil && rest == "" {
+		case "pure", "opaque":
+			if cur != nil && rest == "" && kw == "pure" {
 				cur.Pure = true
 				break
 			}
@@ -210,7 +211,7 @@ func (cs *ContractSet) parseFile(path, pkg string, prefix string, trusted bool) 
 			if lp < 0 || rp < lp {
 				return bad("pure func header")
 			}
-			pf := PureFn{Name: strings.TrimSpace(hd[:lp]), Ret: strings.TrimSpace(hd[rp+1:]), Body: body}
+			pf := PureFn{Name: strings.TrimSpace(hd[:lp]), Ret: strings.TrimSpace(hd[rp+1:]), Body: body, Opaque: kw == "opaque"}
 			for _, a := range strings.Split(hd[lp+1:rp], ",") {
 				if a = strings.TrimSpace(a); a != "" {
 					pf.Params = append(pf.Params, a)
